@@ -180,7 +180,11 @@ def run(ctx, spec):
     for k in range(spec["count"]):
         labelled = k % 3 != 0
         case = R.make_case(rng, 8, 5, labelled=labelled, hostile=k % 2 == 0, colors=k % 4 != 3, max_fam=rng.choice([3, 6, 12]))
-        wrap = (rng.randint(1, 30), rng.randint(1, 30)) if k % 2 else None
+        # wrap widths: DrawParams defaults / random widths / wrapping disabled (None) for both or either kind of label;
+        # the modulus differs from the one of ``hostile`` so that every combination occurs
+        wrap = [None, (rng.randint(1, 30), rng.randint(1, 30)), (None, None), (rng.randint(1, 30), None), (None, rng.randint(1, 30))][k % 5]
+        if wrap is not None and None in wrap:
+            ctx.count("mon.wrap_disabled")
         check_scene(ctx, R.Scene(case), rng, wrap)
         if ctx.too_many():
             return
